@@ -23,7 +23,7 @@ RULE = ("case = (IR-set spec, reported state, requested subset with values, upda
 ASSUMPTIONS = [
     "thermostat state-reply layout and frame layouts of DESIGN appendix A; IR lookup semantics of C15's reference (cases it leaves unspecified are skipped)",
     "target_temp=0 and None mean 'omitted' (the API's defaults)",
-    "an empty reply is an EOF from the device (real socket semantics) or, in half of the fault cases, a single read() that yields b'' while the stream goes on (the unit tests' notion; injected by wrapping the instance's reader, skipped if that private attribute is not reachable)",
+    "an empty reply is an EOF from the device (real socket semantics) or, in half of the fault cases, a single read() that yields b'' while the stream goes on (the unit tests' notion; injected on asyncio.StreamReader.read for that connection; skipped if the client never makes that read)",
 ]
 
 SETTINGS = ["state", "mode", "target", "fan", "swing"]
@@ -112,18 +112,10 @@ async def exchange(case, script):
         k = case.get("empty_read")
         if k is not None:
             # "empty reply" in the sense the unit tests use: one read() yields b'' although the stream goes on.
-            # Harness-side wrapper of the instance's reader (private attribute; skipped when it is not there).
-            rd = getattr(cl.api, "_reader", None)
-            if rd is None or not hasattr(rd, "read"):
-                return "skip", None, []
-            orig, count = rd.read, [0]
-
-            async def read(n=-1):
-                data = await orig(n)
-                i = count[0]
-                count[0] += 1
-                return b"" if i == k else data
-            rd.read = read
+            # Injected on asyncio.StreamReader.read for this connection only (tcpdev.install_empty_read_injector).
+            from ..fake import tcpdev
+            tcpdev.install_empty_read_injector()
+            tcpdev.EMPTY_READS[cl.conn.peer] = {"k": k, "count": 0}
         remote, _ = ops.remote_for(case["ir"])
         if case.get("churn"):
             # another remote object (a sparser sibling of this code set) lived and died in this process just before this one
@@ -155,8 +147,13 @@ async def exchange(case, script):
             if case.get("slow") and out[0] != "ok":
                 await asyncio.sleep(case["slow"]["secs"] + 1)
             await cl.settle()
+        if k is not None:
+            if not tcpdev.EMPTY_READS.get(cl.conn.peer, {}).get("hit"):
+                return "skip", None, []           # the client never made that read(): nothing was injected
         return out[0], out[1], list(cl.conn.frames[nbefore:])
     finally:
+        from ..fake import tcpdev as _t
+        _t.EMPTY_READS.pop(cl.conn.peer if cl.conn else None, None)
         await cl.close()
 
 
@@ -267,7 +264,7 @@ def body(rep, case, sub="dense"):
     rep.tick(sub, key=case, nontrivial=nt, sample=case, labels=labels)
     status, res, frames = net.run(exchange(case, script))
     if status == "skip":
-        rep.label("reader-not-accessible-skipped")
+        rep.label("empty-read-not-reached-skipped")
         return
     if empty_read is not None:
         if status == "raise":
